@@ -333,14 +333,42 @@ func c14Run(c *c14Cell) (d c14Detail) {
 		}
 		return base.WithSkip(n)
 	}
+	// the log/slog handler / std-log bridge is built on the logger either after the skip count was
+	// given (the usual order) or - every other cell - BEFORE the last SetSkip: the attribution must
+	// follow the logger's current skip count either way
+	built := false
+	buildFront := func(t slog.Logger) {
+		c14SL, c14Std = nil, nil
+		switch c.Fam {
+		case "adapter":
+			h := slog.NewSlogHandler(t, &slog.HandlerOptions{NoColor: c.Fmt != "color", JSON: c.Fmt == "json"})
+			c14SL = logslog.New(h)
+		case "bridge":
+			c14Std = slog.NewLogLogger(t, slog.InfoLevel)
+		}
+		built = true
+	}
+	early := c14Serial%2 == 1 && (c.Fam == "adapter" || c.Fam == "bridge")
+	frontTarget := func() slog.Logger {
+		if isDef {
+			return slog.Default()
+		}
+		return base
+	}
 	switch c.Via {
 	case "none":
 	case "Set":
+		if early {
+			buildFront(frontTarget())
+		}
 		setSkip(c.Skip)
 	case "With":
 		target = withSkip(c.Skip)
 	case "SetSet":
 		setSkip(c.Other)
+		if early {
+			buildFront(frontTarget())
+		}
 		setSkip(c.Skip)
 	case "WithOver":
 		setSkip(c.Other)
@@ -358,13 +386,8 @@ func c14Run(c *c14Cell) (d c14Detail) {
 
 	// -- front ends
 	c14L = target
-	c14SL, c14Std = nil, nil
-	switch c.Fam {
-	case "adapter":
-		h := slog.NewSlogHandler(target, &slog.HandlerOptions{NoColor: c.Fmt != "color", JSON: c.Fmt == "json"})
-		c14SL = logslog.New(h)
-	case "bridge":
-		c14Std = slog.NewLogLogger(target, slog.InfoLevel)
+	if !built {
+		buildFront(target)
 	}
 
 	// -- the chain
